@@ -18,6 +18,8 @@ type stdStream struct {
 }
 
 func (s *stdStream) write(p []byte) (int, error) {
+	mu.Lock()
+	defer mu.Unlock()
 	if cur == nil {
 		if s.fd == 2 {
 			return os.Stderr.Write(p)
@@ -46,21 +48,27 @@ func Fwriter(w io.Writer) io.Writer          { return w }
 // environment, identity
 
 func Getenv(k string) string {
+	mu.Lock()
 	if cur != nil {
 		cur.EnvReads = append(cur.EnvReads, k)
 	}
+	mu.Unlock()
 	return os.Getenv(k)
 }
 func LookupEnv(k string) (string, bool) {
+	mu.Lock()
 	if cur != nil {
 		cur.EnvReads = append(cur.EnvReads, k)
 	}
+	mu.Unlock()
 	return os.LookupEnv(k)
 }
 func Environ() []string {
+	mu.Lock()
 	if cur != nil {
 		cur.EnvReads = append(cur.EnvReads, "*")
 	}
+	mu.Unlock()
 	return os.Environ()
 }
 func ExpandEnv(s string) string { return os.Expand(s, Getenv) }
@@ -105,6 +113,8 @@ func Executable() (string, error)    { use("executable"); return "/usr/local/bin
 
 func Now() time.Time {
 	use("clock")
+	mu.Lock()
+	defer mu.Unlock()
 	if cur == nil {
 		return time.Now()
 	}
@@ -115,9 +125,11 @@ func Since(t time.Time) time.Duration { return Now().Sub(t) }
 func Until(t time.Time) time.Duration { return t.Sub(Now()) }
 func Sleep(d time.Duration) {
 	use("sleep")
+	mu.Lock()
 	if cur != nil {
 		cur.Clock = cur.Clock.Add(d)
 	}
+	mu.Unlock()
 }
 
 // ---------------------------------------------------------------------------------------
@@ -125,6 +137,8 @@ func Sleep(d time.Duration) {
 
 func rnd() uint64 {
 	use("rand")
+	mu.Lock()
+	defer mu.Unlock()
 	if cur == nil {
 		return uint64(time.Now().UnixNano())
 	}
